@@ -104,7 +104,7 @@ def run(ctx):
     h = ctx.build_harness("harness.cpp")
     if not (drv and h):
         return
-    n = 160 if ctx.tier == "quick" else 3000
+    n = 160 if ctx.tier == "quick" else 1500
     if ctx.broken:
         n *= 10
     corpus = [l.strip() for l in open(ctx.pdir + "/corpus.txt") if l.strip() and not l.startswith("#")]
